@@ -238,6 +238,20 @@ def run(ctx):
                 if ctx.report(shape, {'case': case, 'api': api, 'observed': r},
                               'an exception raised by user code (%s in %s) does not come out of %s unchanged' % (case['exc'], case['where'], api)) == 'violation':
                     failures += 1
+    # ---- warnings on a rarely taken path: a validator lambda in a source file too large to parse
+    big = run_impl('c11_impl.py', {'cases': [{'kind': 'biglambda'}]}, timeout=600)[0]
+    ctx.extra['big_lambda_probe'] = big
+    ctx.evaluations += 1
+    if 'harness_error' in big or not big.get('warnings'):
+        failures += 1
+        ctx.report({'clause': 'big_lambda_probe'}, {'observed': big}, 'the probe of validators defined in a very large file did not produce the expected warning')
+    else:
+        for w in big['warnings']:
+            if not w['beartype']:
+                if ctx.report({'clause': 'warning', 'cls': w['cls'], 'site': w['site']}, {'case': {'kind': 'biglambda'}, 'observed': big},
+                              'beartype emits a warning that is not a BeartypeWarning: %s (validator lambda in a source file of %d bytes)' % (w['cls'], big.get('size', 0))) == 'violation':
+                    failures += 1
+                break
     # ---- (b) callable_cached
     ccases = []
     for i in range({'quick': 400, 'thorough': 6000}[ctx.tier]):
